@@ -40,6 +40,7 @@ _RP_TBL = models.ResourceProvider.__table__
 _AGG_TBL = models.PlacementAggregate.__table__
 _RP_AGG_TBL = models.ResourceProviderAggregate.__table__
 _RP_TRAIT_TBL = models.ResourceProviderTrait.__table__
+_TRAIT_TBL = models.Trait.__table__
 
 LOG = logging.getLogger(__name__)
 
@@ -474,6 +475,13 @@ def _set_traits(context, rp, traits):
     if to_delete:
         _delete_traits_from_provider(context, rp.id, to_delete)
     if to_add:
+        # The Trait objects were looked up before this transaction began. A
+        # trait deleted since then must not be associated.
+        sel = sa.select(_TRAIT_TBL.c.id).where(_TRAIT_TBL.c.id.in_(to_add))
+        found = set(r[0] for r in context.session.execute(sel).fetchall())
+        if found != to_add:
+            gone = [t.name for t in traits if t.id in to_add - found]
+            raise exception.TraitNotFound(name=', '.join(sorted(gone)))
         _add_traits_to_provider(context, rp.id, to_add)
     rp.increment_generation()
 
